@@ -95,7 +95,7 @@ def run(ctx):
     import wrapper
     D = hirq.Body(f, f.body(dec))
     if D.path != dp:
-        wrapper.check(ctx, f, D, dp, 'H5.complete-frame-reaches-the-frame-decoder')
+        wrapper.check(ctx, f, D, dp, 'H5.complete-frame-reaches-the-frame-decoder', id_range=C06.DELIVERED_IDS)      # (the bounds of a delivered ID: H8 above)
 
     # ---- H2 recursion
     cycles = G.sccs(set(parent.keys()))
